@@ -2,6 +2,7 @@ package c08
 
 import (
 	"bytes"
+	"strings"
 	"testing"
 
 	"pgregory.net/rapid"
@@ -31,7 +32,7 @@ func drawChallenge(t *rapid.T, label string, n int) ([]byte, string) {
 }
 
 var sigmaModes = []string{
-	"soundness", "soundness", "soundness", "hvzk", "hvzk", "interactive",
+	"soundness", "soundness", "soundness", "hvzk", "hvzk", "or-forged", "interactive",
 	"zk", "zk:sid", "zk:tr-extra", "zk:pid-other", "zk:stmt", "zk:name",
 }
 
@@ -40,6 +41,9 @@ func runSigma(t *rapid.T, test string, in inst, what string, modes []string) {
 	mode := rapid.SampledFrom(modes).Draw(t, "mode")
 	if mode == "zk:name" && !in.HasRenamed() {
 		mode = "zk:stmt"
+	}
+	if mode == "or-forged" && !(strings.HasPrefix(in.Shape(), "or^") || strings.HasPrefix(in.Shape(), "orc(")) {
+		mode = "hvzk"
 	}
 	seed := rapid.Uint64().Draw(t, "seed")
 	n := in.ChallengeLen()
@@ -71,6 +75,25 @@ func runSigma(t *rapid.T, test string, in inst, what string, modes []string) {
 			t.Fatalf("HVZK: %s: RunSimulator(x, e=%x) does not give an accepting transcript: %v", what, e, err)
 		}
 		vlib.Class(test, "challenge="+c)
+	case "or-forged":
+		// an OR transcript assembled from simulated branches only (no witness at all) is accepting exactly under the
+		// challenge its branch challenges XOR to; under any other challenge it must be rejected
+		eSim, c1 := drawChallenge(t, "e-sim", n)
+		e, c2 := drawChallenge(t, "e", n)
+		if bytes.Equal(e, eSim) {
+			e[0] ^= 0x40
+			c2 += "^"
+		}
+		var accepted bool
+		var err error
+		vlib.NoPanic(t, "all-simulated OR transcript", func() { accepted, err = in.SimulateUnder(seed, eSim, e) })
+		if err != nil {
+			t.Fatalf("HVZK: %s: simulator for e=%x: %v", what, eSim, err)
+		}
+		if accepted {
+			t.Fatalf("OR: %s: a transcript whose branches were ALL simulated (branch challenges XOR to %x) was ACCEPTED under the challenge %x", what, eSim, e)
+		}
+		vlib.Class(test, "challenges="+c1+","+c2)
 	case "interactive":
 		cs := drawCtx(t, 0, false)
 		ctxP, err1 := cs.build(proverID)
